@@ -33,6 +33,8 @@ bool last_shm_created();                            // the current task's last s
 const char *last_sem_name();                        // platform key used by the current task's last sem_open
 const char *last_shm_name();
 int sem_value(int obj);
+int sem_init_value(int obj);                        // value the object was created with
+bool last_sem_created();                            // the current task's last successful sem_open created the object
 int sem_open_refs(int obj);
 bool sem_name_bound(const char *name);
 int sem_obj_of_name(const char *name);              // -1 if unbound
